@@ -21,6 +21,9 @@ def check_pair(p, name, left, right, **kw):
     shape_ok = len(left.inputs) == len(right.inputs) and len(left.outputs) == len(right.outputs)
     src = (REPLAY_PRELUDE + circ.circ_src(left, "left") + "\n" + circ.circ_src(right, "right") +
            "\nfrom cirbo.sat import build_miter, is_circuit_satisfiable\nfrom cirbo.sat.exceptions import MiterDifferentShapesError\nimport itertools\n"
+           "from cirbo.synthesis.generation import generate_pairwise_xor\n"
+           "for _n in (1, 2, 3):  # a caller that obtained the comparator gadget earlier and edited its own copy\n"
+           "    _g=generate_pairwise_xor(_n); _g.rename_gate(_g.outputs[0], 'edited_by_caller'); _g.set_outputs([_g.inputs[0]]*_n)\n"
            f"kw={kw!r}\n")
     p.case(("miter", sl[:3], sr[:3], tuple(sorted(kw.items()))),
            sample=f"{name}: left {circ.describe(left)} | right {circ.describe(right)} {kw}")
@@ -133,6 +136,25 @@ def unit(p, item, tier, seed):
         check_pair(p, "single-output-custom-names", a, b, left_name="L", right_name="R")
         check_pair(p, "single-output-different", a, circgen.build(["a", "b"], [("g", G.OR, ("a", "b"))], ["g"]))
         check_pair(p, "output-is-input", circgen.build(["a", "b"], [], ["a"]), circgen.build(["p", "q"], [], ["q"]))
+        # wide output vectors: left forwards its inputs, right differs in exactly one (each in turn) output
+        for width in (8, 9, 10, 16, 17, 25, 33):
+            ins = [f"i{k}" for k in range(width)]
+            left_w = circgen.build(ins, [], list(ins))
+            check_pair(p, f"wide-{width}-equal", left_w, circgen.build(ins, [(f"b{k}", G.IFF, (ins[k],)) for k in range(width)], [f"b{k}" for k in range(width)]))
+            for k in sorted({0, width // 2, width - 2, width - 1}):
+                gates = [(f"b{j}", G.IFF if j != k else G.NOT, (ins[j],)) for j in range(width)]
+                check_pair(p, f"wide-{width}-differs-at-{k}", left_w, circgen.build(ins, gates, [f"b{j}" for j in range(width)]))
+        # a caller obtained the comparator gadget earlier and edited its own copy of it
+        from cirbo.synthesis.generation import generate_pairwise_xor
+
+        for n_out in (1, 2, 3):
+            gadget = generate_pairwise_xor(n_out)
+            gadget.rename_gate(gadget.outputs[0], "edited_by_caller")
+            gadget.set_outputs([gadget.inputs[0]] * n_out)
+        check_pair(p, "after-caller-edited-a-comparator-2", circgen.build(["a", "b"], [("g", G.AND, ("a", "b"))], ["g", "a"]),
+                   circgen.build(["a", "b"], [("g", G.AND, ("b", "a"))], ["g", "a"]))
+        check_pair(p, "after-caller-edited-a-comparator-3", circgen.build(["a", "b"], [("g", G.AND, ("a", "b"))], ["g", "a", "b"]),
+                   circgen.build(["a", "b"], [("g", G.OR, ("b", "a"))], ["g", "a", "b"]))
         check_pair(p, "mismatch-inputs", a, circgen.build(["a"], [("g", G.NOT, ("a",))], ["g"]))
         check_pair(p, "mismatch-outputs", a, circgen.build(["a", "b"], [("g", G.AND, ("a", "b"))], ["g", "g"]))
     else:
